@@ -740,6 +740,11 @@ def specBin (op : BinOp) (x y : Int) : Res :=
   | .comma => .ok y
   | _ => .err .syntaxErr
 
+/-- the `t : f` part of a conditional -/
+def colonParts : Expr → Option (Expr × Expr)
+  | .binary .ternColon t f => some (t, f)
+  | _ => none
+
 def specEval : Nat → Nat → Env → Expr → Res × Env
   | 0, _, env, _ => (.err .fuel, env)
   | fuel + 1, depth, env, e =>
@@ -798,11 +803,11 @@ def specEval : Nat → Nat → Env → Expr → Res × Env
           else (.err .syntaxErr, env)
         | none => (.err .syntaxErr, env)
       else if op = .ternQuest then
-        match y with
-        | .binary .ternColon t f =>
+        match colonParts y with
+        | some (t, f) =>
           andThen (specEval fuel depth env x) fun c env1 =>
             if c ≠ 0 then specEval fuel depth env1 t else specEval fuel depth env1 f
-        | _ => (.err .syntaxErr, env)
+        | none => (.err .syntaxErr, env)
       else if op = .andL ∨ op = .orL then
         andThen (specEval fuel depth env x) fun l env1 =>
           if op = .andL ∧ l = 0 then (.ok 0, env1)
